@@ -125,9 +125,14 @@ func TestC14_DocumentRoundTrip(t *testing.T) {
 			a, _ := p.GetAction()
 			checkPatchEncoding(t, p, string(a), nil)
 		}
-		got, err := composer.ApplyPatches(make(document.Document), patches)
+		empty := make(document.Document)
+		got, err := composer.ApplyPatches(empty, patches)
 		if err != nil {
 			t.Fatalf("C14 applying the patches of a document failed: %v\n%s", err, text)
+		}
+		// the empty document the patches were applied to is still empty (it is the caller's, and good for the next conversion)
+		if len(empty) != 0 {
+			t.Fatalf("C14 the empty document handed to ApplyPatches now holds %s", docCanon(empty))
 		}
 		if g, w := docCanon(got), refJCS(normalizeDoc(doc)); g != w {
 			t.Fatalf("C14 document -> patches -> document is not the identity\n doc  %s\n got  %s", w, g)
